@@ -101,6 +101,7 @@ class OwnResult:
         self.consumers = []
         self.states = 0
         self.allowed_used = []
+        self.helpers = []          # forwarding helpers called (bodies)
 
 
 def covers(drop_key, root_key):
@@ -115,7 +116,33 @@ def covers(drop_key, root_key):
     return True
 
 
-def analyse(body, spec=None, carries=lambda ty, cm: cm, track_all_vars=False):
+_FAITHFUL = {}
+
+
+def send_faithful(F, H, _depth=0):
+    """Forwarding helper: a private function returning Result<_, SendError<DltMessage>> whose Err results all stem from a send
+    error of its own (every definition of the return place that is not `Ok(..)` is only reached with the 'consumer gone'
+    fact).  A call of such a helper is, for its caller, a send whose Err edge means the consumer is gone."""
+    key = (id(F), H.path)
+    if key in _FAITHFUL:
+        return _FAITHFUL[key]
+    _FAITHFUL[key] = False      # recursion guard
+    ok = False
+    rt = H.ret_type()
+    if H.kind != 'closure' and 'SendError<' in rt and 'DltMessage' in rt and _depth < 3:
+        res = analyse(H, OwnSpec(), F=F, _depth=_depth + 1)
+        ok = bool(res.send_sites)
+        for (bi, si, d) in res.cfg.defs.get(0, []):
+            if si != 'call' and d.rv['k'] == 'agg' and d.rv.get('variant') == 'Ok':
+                continue
+            sts = res.explorer.states.get(bi, ())
+            if not all(('senderr',) in st[1] for st in sts):
+                ok = False
+    _FAITHFUL[key] = ok
+    return ok
+
+
+def analyse(body, spec=None, carries=lambda ty, cm: cm, track_all_vars=False, F=None, _depth=0):
     spec = spec or OwnSpec()
     cfg = CFG(body)
     res = OwnResult()
@@ -164,6 +191,14 @@ def analyse(body, spec=None, carries=lambda ty, cm: cm, track_all_vars=False):
             send_dest[place_key(dest)] = b.i
             res.send_sites.append({'block': b.i, 'callee': path, 'sp': t.sp})
             continue
+        # forwarding helper (`release_due(&mut heap, .., outflow)?`): a send for the caller; its own body is analysed too
+        if F is not None and 'SendError<' in dest.t and not spec.track_msg_events and path not in SEND_CALLEES:
+            H = F.get(c.resolved) if c.resolved else F.get(path)
+            if H is not None and H.path != body.path and send_faithful(F, H, _depth):
+                send_dest[place_key(dest)] = b.i
+                res.send_sites.append({'block': b.i, 'callee': path, 'sp': t.sp, 'via_helper': H.path})
+                res.helpers.append(H)
+                continue
         # STORE
         if moved_cm and path in STORE_CALLEES and args:
             root = cfg.origin_of_operand(args[0])
